@@ -47,6 +47,20 @@ Robustness to maintenance rewrites of the Rust text (tools/selftest_stream_scryp
     `u32::from(b)` for a bool (`if b then 1 else 0`) or a narrower integer, and a final expression / `return` value that has
     effects at its root (`f(..)` for a translated function that does I/O, `…?`): `f(..)?; Ok(())` and `f(..)` as the last
     expression translate to terms the proofs identify (`StreamSrc.requestion`).
+  * second batch (control-flow / data-flow rewrites; the text generated for the pristine sources is unchanged):
+      - normalising passes on the syntax tree, before anything is emitted: a deferred initialisation `let x; … x = e;` is
+        `let x = e;` at the place of the assignment (`resolve_deferred`); a `match` STATEMENT on a field-less enum, with block
+        arms, `return` arms, `_`, and a scrutinee that may have effects at its root (`match f(..)? { A => {}, B => { return …; } }`)
+        is the chain `if s == A {…} else {…}` after an exhaustiveness check (`match_to_if`), so everything known about `if`
+        statements (early exits, assigned variables, `Rs.Step`) applies;
+      - values: `match o { Some(x) => a, None => b }` on an `Option` (the text `if let` gives), exhaustive `match` without `_`,
+        and arms / branches that are blocks of immutable `let`s (`{ let a = e; v }` is `(let a := e; v)`);
+      - `s.split_at(k)` is the pair `(s.take k, s.drop k)`; `let (a, b) = v[lo..hi].split_at_mut(k);` makes `a`, `b` other
+        names for `v[lo..lo + k]` and `v[lo + k..hi]` (the mechanism of `let x = &mut v[a..b];`, so the text is the one
+        manual range indexing gives); `std::mem::swap(&mut a, &mut b)` (path resolved through the `use`s) is `(a, b) := (b, a)`;
+      - `fn f<const N: usize, …>`: `N` is an explicit `Nat` parameter; at a call its value is read off the array type expected
+        there (`let x: [u8; 4] = f(..)?;`), `N` having to be the length of the array type `f` returns; array types keep their
+        length expression for this purpose (`ArrTy`).
 """
 import sys, os, hashlib
 
@@ -98,6 +112,15 @@ NATS = ('usize', 'u64', 'u32')
 
 
 # ------------------------------------------------------------------------------------------------ parser
+
+class ArrTy(tuple):
+    """the type `[T; n]`: equal to (and used like) the plain ('list', T, 'own'), but it remembers the length expression `n`
+    (attribute `n`), from which the value of a `const N: usize` parameter is read off at a call"""
+    def __new__(cls, elem, n):
+        self = super().__new__(cls, ('list', elem, 'own'))
+        self.n = n
+        return self
+
 
 class SParser(B.Parser):
     """items and the extra statement / expression forms"""
@@ -278,10 +301,15 @@ class SParser(B.Parser):
     def parse_fn_sig(self):
         line = self.expect('fn').line
         name = self.ident().text
-        generics = {}
+        generics, const_generics = {}, []
         if self.accept('<'):
             while not self.accept('>'):
                 if self.peek().kind == 'lifetime': raise Unsupported('lifetime parameter', line)
+                if self.at('const') and self.peek(1).kind == 'id' and self.at(':', 2):     # `const N: usize`
+                    self.next(); g = self.ident(); self.expect(':')
+                    const_generics.append((g.text, self.parse_type(), g.line))
+                    if not self.at('>'): self.expect(',')
+                    continue
                 g = self.ident().text
                 self.expect(':')
                 bound = [self.ident().text]
@@ -302,7 +330,8 @@ class SParser(B.Parser):
         ret = 'unit'
         if self.accept('->'): ret = self.parse_type()
         if self.at('where'): raise Unsupported('`where` clause', line)
-        return Node('fn', line, name=name, params=params, ret=ret, generics=generics, sig_end=self.peek().line)
+        return Node('fn', line, name=name, params=params, ret=ret, generics=generics, const_generics=const_generics,
+                    sig_end=self.peek().line)
 
     def parse_type(self):
         tok = self.peek()
@@ -329,8 +358,8 @@ class SParser(B.Parser):
             if len(parts) == 1: return parts[0]
             return ('tuple', tuple(parts))
         if self.accept('['):
-            elem = self.parse_type(); self.expect(';'); self.parse_expr(); self.expect(']')
-            return ('list', elem, 'own')
+            elem = self.parse_type(); self.expect(';'); n = self.parse_expr(); self.expect(']')
+            return ArrTy(elem, n)
         path = [self.ident().text]
         while self.at('::') and self.peek(1).kind == 'id':
             self.next(); path.append(self.ident().text)
@@ -388,6 +417,8 @@ class SParser(B.Parser):
                 name = self.ident()
                 if self.at('(') or self.at('{') or self.at('::'): raise Unsupported('pattern in `let`', tok.line)
                 ty = self.parse_type() if self.accept(':') else None
+                if not mut and self.accept(';'):                        # `let x;`: initialised later (see `resolve_deferred`)
+                    stmts.append(Node('letdecl', tok.line, name=name.text, ty=ty)); continue
                 if not self.accept('='): raise Unsupported('`let` without initialiser', tok.line)
                 init = self.parse_expr()
                 if self.at('else'): raise Unsupported('`let … else`', tok.line)
@@ -500,23 +531,38 @@ class SParser(B.Parser):
             self.expect('{')
             arms = []
             while not self.accept('}'):
+                # a pattern is `_` (None), the path of an enum variant / `None` (a list), or `Some(x)` (the pair ('Some', x))
                 if self.at('_'):
                     self.next(); pat = None
                 else:
                     p = [self.ident().text]
                     while self.accept('::'): p.append(self.ident().text)
-                    if self.at('(') or self.at('{') or self.at('|') or self.at('if'):
-                        raise Unsupported('`match` pattern other than a path or `_`', tok.line)
-                    pat = p
+                    if p == ['Some'] and self.at('(') and self.peek(1).kind == 'id' and self.at(')', 2):
+                        self.next(); pat = ('Some', self.ident().text); self.next()
+                    elif self.at('(') or self.at('{') or self.at('|') or self.at('if'):
+                        raise Unsupported('`match` pattern other than a path, `Some(x)` or `_`', tok.line)
+                    else:
+                        pat = p
+                if self.at('|') or self.at('if'): raise Unsupported('`match` arm with alternatives or a guard', tok.line)
                 self.expect('=>')
-                if self.at('{'):
+                # an arm is an expression, or a block (kept as a block when it has statements or no value)
+                braced = self.at('{')
+                if braced:
                     blk = self.parse_block()
-                    if blk.stmts or blk.tail is None: raise Unsupported('`match` arm with statements', blk.line)
-                    body = blk.tail
+                    body = blk.tail if (not blk.stmts and blk.tail is not None) else blk
+                elif self.at('return') or self.at('break') or self.at('continue'):
+                    kw = self.next()
+                    if kw.text == 'return':
+                        val = None if (self.at(',') or self.at('}')) else self.parse_expr()
+                        st = Node('return', kw.line, e=val)
+                    else:
+                        st = Node(kw.text, kw.line)
+                    body = Node('block', kw.line, stmts=[st], tail=None)
                 else:
                     body = self.parse_expr()
                 arms.append((pat, body))
-                if not self.at('}'): self.expect(',')
+                if braced: self.accept(',')                              # no comma is needed after a `{ … }` arm
+                elif not self.at('}'): self.expect(',')
             return Node('match', tok.line, scrut=scrut, arms=arms)
         if tok.kind == 'p' and tok.text in ('|', '||'):
             self.next()
@@ -710,6 +756,65 @@ def contains(node, kinds):
     return any(contains(c, kinds) for c in children(node))
 
 
+def binds(node, name):
+    """does some pattern below `node` bind `name` (a `let`, a `for` pattern, a closure parameter, `Some(x)`)?"""
+    if node is None: return False
+    k = node.kind
+    if k in ('let', 'letdecl') and node.name == name: return True
+    if k == 'lettuple' and name in node.names: return True
+    if k == 'for' and name in node.pat: return True
+    if k == 'closure' and name in node.params: return True
+    if k == 'letsome' and node.var == name: return True
+    if k == 'match' and any(isinstance(p, tuple) and p[1] == name for p, _ in node.arms): return True
+    return any(binds(c, name) for c in children(node))
+
+
+def resolve_deferred(blk):
+    """normalising pass over a function body (idempotent): a deferred initialisation
+
+        let x;  …  x = e;           (`let x;` without `mut`: Rust checks that `x` is assigned exactly once on every path on
+                                     which it is used, and never read before)
+    becomes `let x = e;` at the place of the assignment (in whichever nested block that is; a use of `x` outside that
+    block is then an unknown variable, i.e. a refusal).  Assignments that are not statements, and another binding of the
+    same name inside the scope of `let x;`, are refused."""
+    if blk is None: return
+
+    def assigns(node, name):
+        return node.kind == 'assign' and node.op == '=' and node.place.kind == 'path' and node.place.path == [name]
+
+    def rewrite(node, d):
+        """in `node`, turn the statements `x = e;` into `let x = e;`; returns the number of statements rewritten"""
+        n = 0
+        if node.kind == 'block':
+            for i, st in enumerate(node.stmts):
+                if st.kind == 'expr' and assigns(st.e, d.name):
+                    if contains(st.e.e, ('assign',)): raise Unsupported(f'nested assignment in the initialisation of `{d.name}`', st.line)
+                    node.stmts[i] = Node('let', st.line, name=d.name, mut=False, ty=d.ty, init=st.e.e); n += 1
+        for c in children(node): n += rewrite(c, d)
+        return n
+
+    def leftover(node, name):
+        return assigns(node, name) or any(leftover(c, name) for c in children(node))
+
+    def visit(node):
+        if node.kind == 'block':
+            i = 0
+            while i < len(node.stmts):
+                d = node.stmts[i]
+                if d.kind != 'letdecl':
+                    i += 1; continue
+                scope = Node('block', d.line, stmts=node.stmts[i + 1:], tail=node.tail)
+                if binds(scope, d.name): raise Unsupported(f'`let {d.name};` whose name is bound again before the end of its block', d.line)
+                n = rewrite(scope, d)
+                if leftover(scope, d.name): raise Unsupported(f'`let {d.name};` assigned by something other than a statement `{d.name} = e;`', d.line)
+                if n == 0: raise Unsupported(f'`let {d.name};` is never initialised', d.line)
+                node.stmts[i + 1:] = scope.stmts
+                del node.stmts[i]
+        for c in children(node): visit(c)
+
+    visit(blk)
+
+
 class SFn(B.FnTranslator):
     def __init__(self, crate, mod, fn, lean_name=None):
         self.crate, self.mod, self.module = crate, mod, crate.mods[mod]
@@ -726,7 +831,9 @@ class SFn(B.FnTranslator):
         if t in INTS or t in ('bool', 'unit'): return t
         if isinstance(t, IntVar): return t
         if isinstance(t, tuple):
-            if t[0] == 'list': return ('list', self.sem(t[1], line), t[2])
+            if t[0] == 'list':
+                if isinstance(t, ArrTy): return ArrTy(self.sem(t[1], line), t.n)
+                return ('list', self.sem(t[1], line), t[2])
             if t[0] == 'result': return ('result', self.sem(t[1], line), self.sem(t[2], line))
             if t[0] == 'option': return ('option', self.sem(t[1], line))
             if t[0] == 'mutref': return ('mutref', self.sem(t[1], line))
@@ -1001,13 +1108,35 @@ class SFn(B.FnTranslator):
         c = self.expr(e.cond)
         if resolve(c[1]) != 'bool': self.bad('`if` condition is not a boolean', e.line)
         if e.els is None: self.bad('`if` expression without `else`', e.line)
-        outs = []
-        for b in (e.then, e.els):
-            if b.stmts or b.tail is None: self.bad('`if` expression whose branch contains statements', b.line)
-            outs.append(self.expr(b.tail, want))
+        outs = [self.block_value(b, want) for b in (e.then, e.els)]
         ty = self.unify(outs[0][1], outs[1][1], e.line, 'branches of `if`')
-        outs = [self.expr(b.tail, want) for b in (e.then, e.els)]
+        outs = [self.block_value(b, want) for b in (e.then, e.els)]
         return (f'if {c[0]} then {outs[0][0]} else {outs[1][0]}', ty, False)
+
+    def block_value(self, blk, want):
+        """a block used as a value: `{ let a = e; …; v }` is `(let a := e; …; v)`; only immutable `let`s without effects"""
+        if blk.kind != 'block': return self.expr(blk, want)
+        if blk.tail is None: self.bad('a block without a value where a value is needed', blk.line)
+        if not blk.stmts: return self.expr(blk.tail, want)
+        self.scopes.append({})
+        parts = []
+        for s in blk.stmts:
+            if s.kind != 'let' or s.mut: self.bad('block used as a value with a statement other than an immutable `let`', s.line)
+            if self.effectful(s.init) or contains(s.init, EXIT_KINDS + ('assign',)) or self.io_inside(s.init):
+                self.bad('block used as a value: `let` whose initialiser has effects', s.line)
+            if self.alias_target(s.init) is not None: self.bad('`&mut` borrow in a block used as a value', s.line)
+            w = self.sem(s.ty, s.line) if s.ty is not None else None
+            r = self.expr(s.init, w)
+            ty = r[1] if w is None else self.unify(r[1], w, s.line, f'`let {s.name}`')
+            r = self.expr(s.init, w)
+            tv = resolve(ty)
+            if tv in ('reader', 'writer'): self.bad('binding a reader / writer to a new name', s.line)
+            v = self.declare(s.name, ty, False, 'local', s.line)
+            asc = '' if isinstance(tv, IntVar) else f' : {self.lt(tv)}'
+            parts.append(f'let {lname(v.name)}{asc} := {r[0]}')
+        t = self.expr(blk.tail, want)
+        self.scopes.pop()
+        return ('(' + '; '.join(parts + [t[0]]) + ')', t[1], True)
 
     def iflet_expr(self, e, want):
         """`if let Some(x) = o { a } else { b }` as a value"""
@@ -1015,43 +1144,73 @@ class SFn(B.FnTranslator):
         ot = resolve(o[1])
         if not (isinstance(ot, tuple) and ot[0] == 'option'): self.bad(f'`if let Some(..)` on {self.show(ot)}', e.line)
         if e.els is None: self.bad('`if let` expression without `else`', e.line)
-        for b in (e.then, e.els):
-            if b.stmts or b.tail is None: self.bad('`if let` expression whose branch contains statements', b.line)
         self.scopes.append({})
         self.declare(e.cond.var, ot[1], False, 'local', e.line)
-        a = self.expr(e.then.tail, want)
+        a = self.block_value(e.then, want)
         self.scopes.pop()
-        b = self.expr(e.els.tail, want)
+        b = self.block_value(e.els, want)
         ty = self.unify(a[1], b[1], e.line, 'branches of `if let`')
         self.scopes.append({})
         self.declare(e.cond.var, ot[1], False, 'local', e.line)
-        a = self.expr(e.then.tail, want)
+        a = self.block_value(e.then, want)
         self.scopes.pop()
-        b = self.expr(e.els.tail, want)
+        b = self.block_value(e.els, want)
         return (f'(match {o[0]} with | some {lname(e.cond.var)} => {a[0]} | none => {b[0]})', ty, True)
+
+    def match_variants(self, st, line):
+        """the variant names of a type one can `match` on by paths"""
+        if st == 'errkind': return list(ERRKIND_VARIANTS)
+        if isinstance(st, tuple) and st[0] == 'enum' and st[1] not in RES_VARIANT:
+            return [n for n, _ in self.enum_node(st[1]).variants]
+        self.bad(f'`match` on a value of type {self.show(st)}', line)
 
     def match_expr(self, e, want):
         s = self.expr(e.scrut)
         st = resolve(s[1])
-        if st == 'errkind': names, prefix = ERRKIND_VARIANTS, 'RsIO.ErrorKind'
-        elif isinstance(st, tuple) and st[0] == 'enum' and st[1] not in RES_VARIANT:
-            names, prefix = [n for n, _ in self.enum_node(st[1]).variants], self.lt(st)
-        else: self.bad(f'`match` on a value of type {self.show(st)}', e.line)
-        arms, ty, seen_wild = [], None, False
+        if isinstance(st, tuple) and st[0] == 'option': return self.match_option(e, s, st, want)
+        names = self.match_variants(st, e.line)
+        arms, ty, seen_wild, covered = [], None, False, []
         for pat, body in e.arms:
             if seen_wild: self.bad('`match` arm after `_`', e.line)
             if pat is None:
                 ptxt = '_'; seen_wild = True
             else:
+                if not isinstance(pat, list): self.bad(f'`match` on {self.show(st)} with a `Some(..)` pattern', e.line)
                 pv = self.path_expr(Node('path', e.line, path=pat))
                 if resolve(pv[1]) != st: self.bad('`match` pattern of another type', e.line)
                 ptxt = pv[0]
-            r = self.expr(body, want)
+                if pat[-1] in covered: self.bad(f'`match` with two arms for `{pat[-1]}`', e.line)
+                covered.append(pat[-1])
+            r = self.block_value(body, want)
             ty = r[1] if ty is None else self.unify(ty, r[1], e.line, '`match` arms')
             arms.append((ptxt, body))
-        if not seen_wild: self.bad('`match` without a final `_` arm', e.line)
-        text = f'match {s[0]} with ' + ' '.join(f'| {p} => {self.expr(b, want)[0]}' for p, b in arms)
+        if not seen_wild and set(covered) != set(names): self.bad('`match` that is neither exhaustive nor closed by a `_` arm', e.line)
+        text = f'match {s[0]} with ' + ' '.join(f'| {p} => {self.block_value(b, want)[0]}' for p, b in arms)
         return (f'({text})', ty, True)
+
+    def match_option(self, e, s, st, want):
+        """`match o { Some(x) => a, None => b }` (either order; `_` may stand for the second pattern) as a value"""
+        seen, ty = [], None
+        for rnd in (0, 1):                                              # twice: the first round fixes the types of literals
+            texts = []
+            for i, (pat, body) in enumerate(e.arms):
+                if isinstance(pat, tuple) and pat[0] == 'Some': key = 'some'
+                elif pat == ['None'] and self.lookup_opt('None') is None: key = 'none'
+                elif pat is None and i == len(e.arms) - 1 and len(e.arms) == 2: key = '_'
+                else: self.bad('`match` on an `Option` with a pattern other than `Some(x)`, `None` or a final `_`', e.line)
+                if rnd == 0:
+                    if key in seen: self.bad('`match` on an `Option` with a repeated pattern', e.line)
+                    seen.append(key)
+                self.scopes.append({})
+                if key == 'some' and pat[1] != '_': self.declare(pat[1], st[1], False, 'local', e.line)
+                r = self.block_value(body, want)
+                self.scopes.pop()
+                ty = r[1] if ty is None else self.unify(ty, r[1], e.line, '`match` arms')
+                ptxt = f'some {"_" if pat[1] == "_" else lname(pat[1])}' if key == 'some' else key
+                texts.append(f'| {ptxt} => {r[0]}')
+        if len(e.arms) != 2 or not ({'some', 'none'} <= set(seen) or ('_' in seen and len(seen) == 2)):
+            self.bad('`match` on an `Option` that does not have exactly the arms `Some(x)` and `None`', e.line)
+        return (f'(match {s[0]} with ' + ' '.join(texts) + ')', ty, True)
 
     def convert(self, r, target, line, what):
         src = resolve(r[1])
@@ -1111,7 +1270,7 @@ class SFn(B.FnTranslator):
         self.deps |= other.deps
         return sig
 
-    def call_expr(self, e, want=None):
+    def call_expr(self, e, want=None, okw=None):
         if e.f.kind != 'path': self.bad('call of a computed function', e.line)
         path = e.f.path
         if path in (['Ok'], ['Err']):
@@ -1136,7 +1295,7 @@ class SFn(B.FnTranslator):
             self.bad(f'`{"::".join(path)}` of {self.show(src)}', e.line)
         if path == ['u32', 'from_be_bytes']:
             if len(e.args) != 1: self.bad('`u32::from_be_bytes` arity', e.line)
-            r = self.expr(e.args[0])
+            r = self.expr(e.args[0], ('list', 'u8', 'own'))
             self.unify(r[1], ('list', 'u8', 'own'), e.line, 'argument of `u32::from_be_bytes`')
             return (f'beVal {self.paren(r)}', 'u32', False)
         if self.crate.expand(self.mod, self.local_uses, path) in IDENTITY_FNS:
@@ -1173,7 +1332,9 @@ class SFn(B.FnTranslator):
                     self.bad(f'call of `{node.name}` (which does I/O or contains a loop) inside an expression', e.line)
                 self.deps.add(('fn', mod, node.name))
                 for imp in info['implicit']: self.need_implicit(imp)
-                return (' '.join([lname(node.name)] + info['implicit'] + args), ret, False)
+                w = resolve(want) if want is not None else None
+                if okw is None: okw = w[1] if (isinstance(w, tuple) and w[0] == 'result') else w
+                return (' '.join([lname(node.name)] + info['implicit'] + self.const_args(node, okw, e.line) + args), ret, False)
             self.bad(f'call of `{qual(mod, node.name)}`, which has no Lean meaning (not in EXTERN, not translated)', e.line)
         self.bad(f'call of `{"::".join(path)}`', e.line)
 
@@ -1203,6 +1364,13 @@ class SFn(B.FnTranslator):
             if rt == 'u32': return (f'be32 {self.paren(recv)}', ('list', 'u8', 'own'), False)
             self.bad(f'`.to_be_bytes` on {self.show(rt)}', e.line)
         if name == 'kind' and not e.args and rt == 'ioerror': return (f'{self.paren(recv)}.kind', 'errkind', False)
+        if name == 'split_at' and len(e.args) == 1 and is_list(rt):     # (s[..k], s[k..]); panics when k > s.len(): totalised
+            k = self.expr(e.args[0])
+            self.unify(k[1], 'usize', e.line, 'argument of `.split_at`')
+            k = self.expr(e.args[0])
+            part = ('list', rt[1], 'ref')
+            return (f'({self.paren(recv)}.take {self.paren(k)}, {self.paren(recv)}.drop {self.paren(k)})', ('tuple', (part, part)), True)
+        if name == 'split_at_mut': self.bad('`.split_at_mut` outside `let (a, b) = v[..].split_at_mut(k);`', e.line)
         if name in ('copy_from_slice', 'clone_from'): self.bad(f'`.{name}` used as an expression', e.line)
         self.bad(f'method `.{name}` on {self.show(rt)}', e.line)
 
@@ -1236,10 +1404,11 @@ class SFn(B.FnTranslator):
         return super().place(e, what)
 
     # ---- effects: I/O calls, `.map_err`, `?` (only at the root of a `let` initialiser, an expression statement, `return`)
-    def spine(self, e, want=None):
+    def spine(self, e, want=None, okw=None):
+        """`okw`: the type expected for the `Ok` value of `e` (known under a `?` whose value has an annotated type)"""
         while e.kind == 'paren': e = e.e
         if e.kind == 'try':
-            inner = self.spine(e.e)
+            inner = self.spine(e.e, okw=want)
             ty = resolve(inner[1])
             fr = resolve(self.ret_ty)
             if isinstance(ty, tuple) and ty[0] == 'resres' and isinstance(fr, tuple) and fr[0] == 'result':
@@ -1268,7 +1437,7 @@ class SFn(B.FnTranslator):
             self.emit(f'| .ok {vn} =>')
             return (vn, ty[1], True)
         if e.kind == 'mcall' and e.name == 'map_err':
-            inner = self.spine(e.recv)
+            inner = self.spine(e.recv, okw=okw)
             ty = resolve(inner[1])
             if not (isinstance(ty, tuple) and ty[0] == 'result'):
                 self.bad(f'`.map_err` on a value of type {self.show(ty)}', e.line)
@@ -1304,7 +1473,11 @@ class SFn(B.FnTranslator):
             it = self.crate.item(self.crate.resolve(self.mod, self.local_uses, e.f.path))
             if it and it[0] == 'fn' and not it[3] and it[1] == self.mod and it[2].body is not None:
                 info = getattr(it[2], 'info', None)
-                if info is not None and (info['fuel'] or info['world']): return self.world_call(e, it[2], info)
+                if info is not None and (info['fuel'] or info['world']):
+                    w = resolve(want) if want is not None else None
+                    if okw is None and isinstance(w, tuple) and w[0] == 'result': okw = w[1]
+                    return self.world_call(e, it[2], info, okw)
+                if okw is not None and getattr(it[2], 'const_generics', None): return self.call_expr(e, want, okw)
         if e.kind == 'mcall' and e.name in IO_METHODS:
             rv = e.recv
             while rv.kind in ('paren', 'ref'): rv = rv.e
@@ -1319,7 +1492,25 @@ class SFn(B.FnTranslator):
                 self.bad(f'I/O method `.{e.name}` (only read, read_exact, write_all, flush have a meaning in RsIO.lean)', e.line)
         return self.expr(e, want)
 
-    def world_call(self, e, node, info):
+    def const_args(self, node, okw, line):
+        """the values of the `const N: usize` parameters of the function `node` at a call: `N` must be the length of the array
+        type the function returns (`[T; N]` or `Result<[T; N], _>`); its value is the length written in the array type
+        expected at the call (`let x: [u8; 4] = f(..)?;`)"""
+        out = []
+        for name, ty, _ in getattr(node, 'const_generics', None) or []:
+            ok = node.ret[1] if isinstance(node.ret, tuple) and node.ret[0] == 'result' else node.ret
+            n = getattr(ok, 'n', None)
+            if not (isinstance(ok, ArrTy) and n.kind == 'path' and n.path == [name]):
+                self.bad(f'call of `{node.name}`: its const parameter `{name}` is not the length of the array it returns', line)
+            w = resolve(okw) if okw is not None else None
+            if not isinstance(w, ArrTy):
+                self.bad(f'call of `{node.name}`: no array type annotation at the call fixes its const parameter `{name}`', line)
+            r = self.expr(w.n)
+            self.unify(r[1], 'usize', line, f'const parameter `{name}`')
+            out.append(self.paren(self.expr(w.n)))
+        return out
+
+    def world_call(self, e, node, info, okw=None):
         """call of a translated function of this file that has `&mut` reader / writer parameters and / or a loop"""
         params, ret = self.fn_sig(self.mod, node, e.line)
         if len(params) != len(e.args): self.bad(f'`{node.name}` called with {len(e.args)} arguments', e.line)
@@ -1343,7 +1534,7 @@ class SFn(B.FnTranslator):
         for imp in info['implicit']: self.need_implicit(imp)
         fuels = self.take_fuel(len(info['fuel']))
         if info.get('ghost'): args.append(lname(self.the_reader(e.line).name))
-        call = ' '.join([lname(node.name)] + info['implicit'] + args + fuels)
+        call = ' '.join([lname(node.name)] + info['implicit'] + self.const_args(node, okw, e.line) + args + fuels)
         r = self.fresh('r')
         tup = '(' + ', '.join([r] + [lname(v.name) for v in outs]) + ')' if outs else r
         if info['fuel']:
@@ -1493,7 +1684,7 @@ class SFn(B.FnTranslator):
                 note(n, local, x.line)
             elif k == 'ref' and x.mut:
                 note(place_name(x.e), local, x.line)
-            elif k == 'mcall' and x.name in ('copy_from_slice', 'clone_from'):
+            elif k == 'mcall' and x.name in ('copy_from_slice', 'clone_from', 'split_at_mut'):
                 note(place_name(x.recv), local, x.line)
             elif k == 'mcall' and x.name in IO_METHODS:
                 n = place_name(x.recv)
@@ -1553,13 +1744,84 @@ class SFn(B.FnTranslator):
             self.unify(r[1], ty, e.line, 'clone_from')
             self.emit(f'let {lname(v.name)} := {r[0]}')
             return
+        sw = self.swap_args(e)
+        if sw is not None:                                              # `std::mem::swap(&mut a, &mut b)`: a, b := b, a
+            a, b = sw
+            ty = self.unify(a.ty, b.ty, e.line, '`std::mem::swap`')
+            t = self.lt(ty)
+            t = t if ' ' not in t else f'({t})'
+            self.emit(f'let ({lname(a.name)}, {lname(b.name)}) : {t} × {t} := ({lname(b.name)}, {lname(a.name)})')
+            return
         before = len(self.lines)
         r = self.spine(e)
         ty = resolve(r[1])
         if isinstance(ty, tuple) and ty[0] == 'result': self.bad('a `Result` that is neither `?`-ed nor bound', e.line)
         if len(self.lines) == before: self.bad('expression statement without effect', e.line)
 
+    def split_mut_parts(self, init):
+        """(variable node, lo, hi, k) when `init` is `v.split_at_mut(k)` / `v[lo..hi].split_at_mut(k)` (with or without `&mut`)
+        for a mutable slice variable `v`, else None"""
+        x = init
+        while x.kind == 'paren': x = x.e
+        if not (x.kind == 'mcall' and x.name == 'split_at_mut' and len(x.args) == 1): return None
+        r = x.recv
+        while r.kind in ('paren', 'ref'): r = r.e
+        rng = None
+        if r.kind == 'index' and r.ix.kind == 'range': r, rng = r.e, r.ix
+        while r.kind == 'paren': r = r.e
+        if not (r.kind == 'path' and len(r.path) == 1): return None
+        v = self.lookup_opt(r.path[0])
+        if v is None or v.kind == 'alias' or not is_list(v.ty): return None
+        return (r, rng.lo if rng is not None else None, rng.hi if rng is not None else None, x.args[0])
+
+    def split_mut_stmt(self, s, parts):
+        """`let (a, b) = v[lo..hi].split_at_mut(k);`: `a` is another name for `v[lo..lo + k]` and `b` for `v[lo + k..hi]`
+        (reads and writes go to `v`, exactly as for `let x = &mut v[a..b];`)"""
+        vnode, lo, hi, k = parts
+        if s.ty is not None or len(s.names) != 2: self.bad('`.split_at_mut` bound to something other than an untyped pair', s.line)
+        target = self.lookup(vnode.path[0], s.line)
+        if not target.mutable: self.bad(f'`&mut` borrow of `{target.name}`, which is not mutable', s.line)
+        frozen = {target.name: target}
+        for node in (lo, hi, k):
+            for name in (B.free_vars(node) if node is not None else []):
+                var = self.lookup_opt(name)
+                if var is None:
+                    frozen[name] = None; continue
+                if var.mutable or var.kind == 'alias':
+                    self.bad(f'`{target.name}[..].split_at_mut(..)` with a bound that mentions the mutable variable `{name}`', s.line)
+                frozen[name] = var
+        mid = k if lo is None else Node('bin', s.line, op='+', l=lo, r=k)
+        ranges = [Node('range', s.line, lo=lo, hi=mid), Node('range', s.line, lo=mid, hi=hi)]
+        for name, rng in zip(s.names, ranges):
+            if name == '_': continue
+            v = self.declare(name, ('list', resolve(target.ty)[1], 'mutref'), True, 'alias', s.line)
+            v.alias = (Node('index', s.line, e=vnode, ix=rng), frozen)
+            self.alias_place(v, s.line)                                 # type-checks the bounds now
+
+    def swap_args(self, e):
+        """the two variables when `e` is `std::mem::swap(&mut a, &mut b)` (the path is resolved through the `use`s), else None"""
+        if not (e.kind == 'call' and e.f.kind == 'path'): return None
+        if self.crate.resolve(self.mod, self.local_uses, e.f.path) != ('std', 'mem', 'swap'): return None
+        if len(e.f.path) == 1 and self.lookup_opt(e.f.path[0]) is not None: return None
+        if len(e.args) != 2: self.bad('`std::mem::swap` arity', e.line)
+        out = []
+        for a in e.args:
+            x = a
+            while x.kind == 'paren': x = x.e
+            if not (x.kind == 'ref' and x.mut): self.bad('`std::mem::swap`: the arguments must be `&mut variable`', e.line)
+            x = x.e
+            while x.kind == 'paren': x = x.e
+            if not (x.kind == 'path' and len(x.path) == 1): self.bad('`std::mem::swap`: the arguments must be `&mut variable`', e.line)
+            v = self.lookup(x.path[0], e.line)
+            if v.kind != 'local' or not v.mutable or resolve(v.ty) in ('reader', 'writer'):
+                self.bad(f'`std::mem::swap` of `{v.name}`, which is not a `let mut` variable', e.line)
+            out.append(v)
+        if out[0] is out[1]: self.bad('`std::mem::swap` of a variable with itself', e.line)
+        return out
+
     def lettuple_stmt(self, s):
+        parts = self.split_mut_parts(s.init)
+        if parts is not None: return self.split_mut_stmt(s, parts)
         want = self.sem(s.ty, s.line) if s.ty is not None else None
         r = self.spine(s.init, want)
         ty = resolve(r[1])
@@ -1658,7 +1920,8 @@ class SFn(B.FnTranslator):
         if fn_level: self.tracked.append((len(self.scopes) - 1, self.world()))
         self.ctxs.append(ctx)
         stmts, tail = list(blk.stmts), blk.tail
-        if tail is not None and tail.kind in ('if', 'loop') and (ctx.stmt_tail or resolve(self.ret_ty) == 'unit'):
+        if tail is not None and (tail.kind in ('if', 'loop') or (tail.kind == 'match' and contains(tail, ('block',)))) \
+                and (ctx.stmt_tail or resolve(self.ret_ty) == 'unit'):
             stmts.append(Node('expr', tail.line, e=tail)); tail = None
         if tail is not None and not fn_level: self.bad('block ending in an expression', tail.line)
         closers, terminated = 0, False
@@ -1669,6 +1932,7 @@ class SFn(B.FnTranslator):
             self.comment(s.line)
             inner = s.e if s.kind == 'expr' else None
             while inner is not None and inner.kind == 'paren': inner = inner.e
+            if inner is not None and inner.kind == 'match': inner = self.match_to_if(inner)
             if s.kind == 'return':
                 val = self.ret_any(s.e, s.line)
                 self.emit(ctx.ret_packed(self, self.pack(val))); terminated = True
@@ -1705,6 +1969,47 @@ class SFn(B.FnTranslator):
         if fn_level: self.tracked.pop()
         if state is not None: self.tracked.pop()
         self.scopes.pop()
+
+    def match_to_if(self, e):
+        """normalisation of a `match` statement on a field-less enum (its value, if any, is not used):
+               match s { P1 => b1, …, Pn => bn }     (exhaustive, or closed by `_`; checked here)
+           is  if s == P1 { b1 } else if … else { bn };   `s` is evaluated once: when it is not a variable it is bound first
+           (`let m'k = s;`, effects at its root allowed as in any `let`).  Returns the `if` node."""
+        sc = e.scrut
+        while sc.kind == 'paren': sc = sc.e
+        v = self.lookup_opt(sc.path[0]) if sc.kind == 'path' and len(sc.path) == 1 else None
+        if v is None or v.kind == 'alias':
+            name = self.fresh('m')
+            self.let_stmt(Node('let', e.line, name=name, mut=False, ty=None, init=e.scrut))
+            v = self.lookup(name, e.line)
+        st = resolve(v.ty)
+        names = self.match_variants(st, e.line)
+        if len(e.arms) < 2: self.bad('`match` statement with fewer than two arms', e.line)
+        covered, conds = [], []
+        for i, (pat, body) in enumerate(e.arms):
+            if pat is None:
+                if i != len(e.arms) - 1: self.bad('`match` arm after `_`', e.line)
+                conds.append(None); continue
+            if not isinstance(pat, list): self.bad(f'`match` on {self.show(st)} with a `Some(..)` pattern', e.line)
+            pv = self.path_expr(Node('path', e.line, path=pat))
+            if resolve(pv[1]) != st or pat[-1] not in names: self.bad('`match` pattern that is not a variant of the matched type', e.line)
+            if pat[-1] in covered: self.bad(f'`match` with two arms for `{pat[-1]}`', e.line)
+            covered.append(pat[-1])
+            conds.append(Node('bin', e.line, op='==', l=Node('path', e.line, path=[v.name]), r=Node('path', e.line, path=pat)))
+        if conds[-1] is not None and set(covered) != set(names):
+            self.bad('`match` that is neither exhaustive nor closed by a `_` arm', e.line)
+
+        def blockify(body):
+            if body.kind == 'block':
+                if body.tail is not None: self.bad('`match` statement whose arm has a value', body.line)
+                return body
+            return Node('block', body.line, stmts=[Node('expr', body.line, e=body)], tail=None)
+
+        node = blockify(e.arms[-1][1])                                   # the last arm is the final `else`
+        for (pat, body), c in reversed(list(zip(e.arms[:-1], conds[:-1]))):
+            els = node if node.kind == 'block' else Node('block', node.line, stmts=[], tail=node)
+            node = Node('if', body.line, cond=c, then=blockify(body), els=els)
+        return node
 
     def if_chain(self, e, ctx):
         """`if c { A } else if d { B } else { C }` as a Lean term of the type of `ctx`"""
@@ -1803,6 +2108,10 @@ class SFn(B.FnTranslator):
         self.has_fuel = n_fuel > 0
         self.ret_ty = self.sem(fn.ret, fn.line)
         self.params_v, ptexts = [], []
+        resolve_deferred(fn.body)
+        for cn, ct, cl in getattr(fn, 'const_generics', None) or []:      # `const N: usize` is an explicit parameter
+            if self.sem(ct, cl) != 'usize': self.bad(f'const parameter `{cn}` of a type other than usize', cl)
+            ptexts.append(f'({lname(self.declare(cn, "usize", False, "param", cl).name)} : Nat)')
         for pn, pt, pl in fn.params:
             t = self.sem(pt, pl)
             if isinstance(t, tuple) and t[0] == 'mutref':
